@@ -136,8 +136,15 @@ fn decide(case: &Case, info: &mut CaseInfo) -> Verdict {
         if parsed.target.as_deref() != Some(chosen.identifier.as_str()) {
             return Verdict::Fail { sig: "auth-cookie-wrong-target".into(), msg: format!("cookie records target {:?}, chosen target is {:?}", parsed.target, chosen.identifier) };
         }
-        if parsed.timestamp < now0 || parsed.timestamp > now1 {
-            return Verdict::Fail { sig: "auth-cookie-wrong-time".into(), msg: format!("cookie timestamp {} outside [{now0}, {now1}]", parsed.timestamp) };
+        // "the current time": not before the last backend call returned (the cookie is issued after the
+        // target was chosen), not after the connection ended
+        let issued_not_before = out1.wall_marks.iter().rev().find(|(k, _)| *k == "select").map(|(_, w)| *w).unwrap_or(now0);
+        if parsed.timestamp < issued_not_before || parsed.timestamp > now1 {
+            let sig = if parsed.timestamp < issued_not_before && parsed.timestamp >= now0 { "auth-cookie-stale-time" } else { "auth-cookie-wrong-time" };
+            return Verdict::Fail { sig: sig.into(), msg: format!("cookie timestamp {} outside [{issued_not_before}, {now1}] (connection started at {now0}; the target was chosen at {issued_not_before})", parsed.timestamp) };
+        }
+        if issued_not_before > now0 {
+            info.class("conn1:took_more_than_a_second");
         }
         issued = Some(payload.clone());
     }
@@ -187,6 +194,7 @@ fn decide(case: &Case, info: &mut CaseInfo) -> Verdict {
     login2.session_cookie = if case.prior_session { CookieAnswer::Payload(prior_session_payload) } else { CookieAnswer::Payload(session_cookies[0].1.clone()) };
     // connection 2's authentication service would vouch for somebody else: only the cookie can yield the same identity
     let mut adapters2 = case.adapters.clone();
+    adapters2.discovery_real_ms = 0;
     adapters2.auth = AuthV::Ok(ProfileSpec { name: "SomebodyElse".into(), id: uuid::Uuid::from_u128(0xE15E), properties: vec![] });
     let n0 = cookie::now_secs();
     let l2 = login2.clone();
@@ -265,12 +273,12 @@ impl Check for C10 {
         (
             (gens::client_addr(), secret, expiry, prop_oneof![Just(2i32), Just(3i32)]),
             (gens::name(), gens::uuid(), gens::host(), gens::port(), profile, any::<bool>()),
-            (targets, any::<u16>(), from2, any::<u64>(), any::<u64>()),
+            (targets, any::<u16>(), from2, any::<u64>(), any::<u64>(), prop::bool::weighted(0.025)),
         )
-            .prop_map(|((client_addr, secret, expiry, intent1), (name, uuid, host, port, profile, prior_session), (targets, pick, from2, seed1, seed2))| {
+            .prop_map(|((client_addr, secret, expiry, intent1), (name, uuid, host, port, profile, prior_session), (targets, pick, from2, seed1, seed2, slow))| {
                 let from2 = match from2 {
                     // an "other IP" that happens to equal the first one is the same-IP class
-                    From2::OtherIp(a) if a.parse::<SocketAddr>().unwrap().ip() == client_addr.parse::<SocketAddr>().unwrap().ip() => From2::SameAddr,
+                    From2::OtherIp(a) if a.parse::<SocketAddr>().unwrap().ip() == client_addr.parse::<SocketAddr>().unwrap().ip() || gens::same_canonical_ip(&a, &client_addr) => From2::SameAddr,
                     o => o,
                 };
                 Case {
@@ -279,7 +287,7 @@ impl Check for C10 {
                     login: LoginScript { name, uuid, host, port, ..Default::default() },
                     profile: profile.clone(),
                     prior_session,
-                    adapters: AdapterScript { auth: AuthV::Ok(profile), discovery: Some(targets), strategy: StrategyV::Pick(pick), ..Default::default() },
+                    adapters: AdapterScript { auth: AuthV::Ok(profile), discovery: Some(targets), strategy: StrategyV::Pick(pick), discovery_real_ms: if slow { 1100 } else { 0 }, ..Default::default() },
                     from2,
                     seed1,
                     seed2,
